@@ -100,10 +100,22 @@ class Backend(object):
     def __init__(self):
         self.obls = []
         self.notes = {}
+        self.cover_seen = {}
+        self.cover_expect = {}
 
     def begin(self):
         self.obls = []
         self.notes = {}
+        self.cover_seen = {}
+        self.cover_expect = {}
+
+    def cover(self, key, item, expect=None):
+        """coverage across paths: every element of ``expect`` must be hit
+        on some feasible path (used for uniform random choices: each
+        alternative must be reachable)"""
+        self.cover_seen.setdefault(key, set()).add(item)
+        if expect is not None:
+            self.cover_expect[key] = set(expect)
 
     # obligations ----------------------------------------------------------
     def eq(self, label, lhs, rhs, tol=None):
@@ -322,7 +334,9 @@ def run_case(case_name, fn, cfg, opts):
     def body():
         B.begin()
         fn(B, cfg)
-        return list(B.obls), dict(B.notes)
+        notes = dict(B.notes)
+        notes['__cover__'] = (dict(B.cover_seen), dict(B.cover_expect))
+        return list(B.obls), notes
 
     try:
         if profile:
@@ -344,6 +358,7 @@ def run_case(case_name, fn, cfg, opts):
         res.errors.append('no feasible path (vacuous case)')
 
     expect_exc = opts.get('exceptions_are_results', False)
+    cover_seen, cover_expect = {}, {}
     twin_done = False
     diff_done = False
     for p in paths:
@@ -372,6 +387,10 @@ def run_case(case_name, fn, cfg, opts):
                         p.exc, [T.show(c) for c in p.conds], tb))
             continue
         obls, notes = p.result
+        seen_, expect_ = notes.pop('__cover__', ({}, {}))
+        for k_, v_ in seen_.items():
+            cover_seen.setdefault(k_, set()).update(v_)
+        cover_expect.update(expect_)
         res.notes.update(notes)
         for ob in obls:
             kind, label = ob[0], ob[1]
@@ -474,6 +493,21 @@ def run_case(case_name, fn, cfg, opts):
         if not diff_done and obls and opts.get('diffcheck', True):
             diff_done = True
             _diffcheck(res, fn, cfg, opts, solver, p, obls)
+    if not ex.incomplete:
+        for k_, want_ in cover_expect.items():
+            res.obligations += 1
+            res.trivial += 1
+            missing = want_ - cover_seen.get(k_, set())
+            if not missing:
+                res.discharged += 1
+            else:
+                res.violations.append(dict(
+                    label='coverage: every alternative of %s is reachable'
+                          % k_,
+                    detail='never selected on any feasible path: %r'
+                           % sorted(missing)[:6],
+                    confirmed=True, outcome='exhaustive path exploration',
+                    env=None, path=[]))
     res.solver = solver.stats.as_dict()
     res.seconds = time.time() - t0
     return res
